@@ -229,6 +229,22 @@ def case_angle_ppp_3d(ctx):
     ctx.require("angle-ppp-3d:sin2phi-squared", ctx.eq(sn * sn * (dotp * dotp + cr2) * (dotp * dotp + cr2), 4 * dotp * dotp * cr2))
 
 
+def case_angle_3d_lattice(ctx):
+    """angle of lattice triangles in planes away from the origin: cos(2 phi) from dot and cross products"""
+    from geometer import Point, angle
+    from fractions import Fraction
+    for a, b, c in (((2, -1, 4), (3, 0, 4), (2, 0, 5)), ((10, 10, 10), (11, 9, 10), (11, 11, 8)), ((0, 3, 5), (1, 3, 7), (-2, 4, 5))):
+        phi = angle(Point(*[float(x) for x in a]), Point(*[float(x) for x in b]), Point(*[float(x) for x in c]))
+        u = [b[i] - a[i] for i in range(3)]
+        v = [c[i] - a[i] for i in range(3)]
+        dotp = sum(u[i] * v[i] for i in range(3))
+        cr = [u[1] * v[2] - u[2] * v[1], u[2] * v[0] - u[0] * v[2], u[0] * v[1] - u[1] * v[0]]
+        cr2 = sum(x * x for x in cr)
+        cs, sn = _cs2(ctx, phi)
+        num, den = dotp * dotp - cr2, dotp * dotp + cr2
+        ctx.require(f"angle-3d-lattice{a}:cos2phi", ctx.eq(cs * den, num))
+
+
 def case_segment_length(ctx):
     from geometer import Segment, Point
     a, b = _finite(ctx, _nz(ctx, vec(ctx, "a", 3))), _finite(ctx, _nz(ctx, vec(ctx, "b", 3)))
@@ -282,6 +298,7 @@ def cases(tier, seed):
     add("angle_ppp_2d", case_angle_ppp, tiers=Q, max_paths=2000)
     add("angle_ll_2d", case_angle_ll, tiers=Q, max_paths=2000)
     add("segment_length_2d", case_segment_length, tiers=Q)
+    add("angle_3d_lattice", case_angle_3d_lattice, tiers=Q, max_paths=2000)
     for k in range(3):
         add(f"dist_point_segment{k}", mk_dist_point_segment(k), tiers=Q, max_paths=2000)
     add("angle_ppp_3d", case_angle_ppp_3d, tiers=("attempt",), max_paths=2000)
